@@ -81,36 +81,41 @@ func checkC04(p *Prog, r *Report) {
 		seenOrigin[originOf(fn)] = true
 		rw := remoteWriteParam(fn)
 		idx := 0
-		for _, b := range fn.Blocks {
-			for _, ins := range b.Instrs {
-				st, ok := ins.(*ssa.Store)
-				if !ok {
-					continue
-				}
-				fa, ok := st.Addr.(*ssa.FieldAddr)
-				if !ok || fieldOfAddr(fa) == nil || fieldOfAddr(fa).Name() != "data" {
-					continue
-				}
-				idx++
-				nilGuards := map[string]bool{}
-				for _, g := range Guards(b) {
-					if x, trueNil, ok := nilTest(g.Cond); ok && trueNil == g.Val {
-						nilGuards[Path(x)] = true
+		p.InScope(fn, func() {
+			for _, sf := range p.ScopeFns(fn) {
+				for _, b := range sf.Blocks {
+					for _, ins := range b.Instrs {
+						st, ok := ins.(*ssa.Store)
+						if !ok {
+							continue
+						}
+						fa, ok := st.Addr.(*ssa.FieldAddr)
+						if !ok || fieldOfAddr(fa) == nil || fieldOfAddr(fa).Name() != "data" {
+							continue
+						}
+						idx++
+						nilGuards := map[string]bool{}
+						for _, g := range Guards(b) {
+							if x, trueNil, ok := nilTest(g.Cond); ok && trueNil == g.Val {
+								nilGuards[Path(x)] = true
+							}
+						}
+						if !(nilGuards["param:filterPartial"] && nilGuards["param:filterDelete"]) {
+							continue // merge path: handled by the engine rules
+						}
+						nStores++
+						// a store inside an extracted helper is reached through the helper's call in UpdateData
+						open := rw == nil || reachableUnder(fn, liftInScope(st), func(c ssa.Value) (bool, bool) {
+							if c == ssa.Value(rw) {
+								return true, true
+							}
+							return false, false
+						})
+						r.Check("R1", fmt.Sprintf("spine.FunctionData.UpdateData|replace-store#%d", idx), !open, p.InstrPos(st), "the wholesale replacement of the stored data is reachable with remoteWrite=true: a full remote write replaces unchangeable elements and their flags")
 					}
 				}
-				if !(nilGuards["param:filterPartial"] && nilGuards["param:filterDelete"]) {
-					continue // merge path: handled by the engine rules
-				}
-				nStores++
-				open := rw == nil || reachableUnder(fn, st, func(c ssa.Value) (bool, bool) {
-					if c == ssa.Value(rw) {
-						return true, true
-					}
-					return false, false
-				})
-				r.Check("R1", fmt.Sprintf("spine.FunctionData.UpdateData|replace-store#%d", idx), !open, p.InstrPos(st), "the wholesale replacement of the stored data is reachable with remoteWrite=true: a full remote write replaces unchangeable elements and their flags")
 			}
-		}
+		})
 	}
 	r.Floor("R1", "replace-path stores", nStores, 1)
 
@@ -247,18 +252,21 @@ func checkC04(p *Prog, r *Report) {
 					}
 				}
 			})
+			consulted := len(waCalls) > 0
 			open := reachableUnder(fn, call, func(c ssa.Value) (bool, bool) {
 				if c == ssa.Value(rw) {
 					return true, true
 				}
-				for _, w := range waCalls {
-					if c == ssa.Value(w) {
+				// the write check, in the stage itself or inside a boolean helper the stage's condition calls
+				if wc, isCall := c.(*ssa.Call); isCall {
+					if cc := wc.Call.StaticCallee(); cc != nil && (wcf[cc] || wcf[originOf(cc)]) {
+						consulted = true
 						return true, false
 					}
 				}
 				return false, false
 			})
-			r.Check("R8", fmt.Sprintf("%s|call:%s#%d", base, originName(callee), nMutSites), !open && len(waCalls) > 0, p.InstrPos(call), fmt.Sprintf("mutator applied to %s; reachable with remoteWrite=true and writeAllowed=false: %v", target, open))
+			r.Check("R8", fmt.Sprintf("%s|call:%s#%d", base, originName(callee), nMutSites), !open && consulted, p.InstrPos(call), fmt.Sprintf("mutator applied to %s; reachable with remoteWrite=true and writeAllowed=false: %v", target, open))
 		})
 	}
 	r.Floor("R3", "engine stages", nStages, 3)
